@@ -79,6 +79,7 @@ def _check_valid(axioms, pc, goal, timeout_ms=10000, seed=0, external=True):
     t0 = time.time()
     STATS['queries'] += 1
     attempts = []
+    ext_budget = False
     goals = [('direct', goal)]
     eg = _ext_goal(goal)
     if eg is not None and not z3.eq(eg, goal):
@@ -114,13 +115,22 @@ def _check_valid(axioms, pc, goal, timeout_ms=10000, seed=0, external=True):
                 with tempfile.NamedTemporaryFile('w', suffix='.smt2', delete=False, dir=os.environ.get('PYVC_SCRATCH', None)) as f:
                     f.write(smt)
                     fn = f.name
+                t_ext = time.time()
                 out = subprocess.run(cmd + [fn], capture_output=True, text=True, timeout=timeout_ms / 1000 + 5).stdout
                 os.unlink(fn)
+                if not out.strip().startswith(('unsat', 'sat')) and time.time() - t_ext >= 0.8 * timeout_ms / 1000:
+                    ext_budget = True           # the external solver ran out of its budget too (a loaded machine, or a hard query)
                 if out.strip().startswith('unsat'):
                     dt = time.time() - t0
                     STATS['time'] += dt
                     STATS['by_backend'][name] = STATS['by_backend'].get(name, 0) + 1
                     return Result('unsat', name, dt)
+            except subprocess.TimeoutExpired:
+                ext_budget = True
+                try:
+                    os.unlink(fn)
+                except Exception:
+                    pass
             except Exception:
                 try:
                     os.unlink(fn)
@@ -138,6 +148,8 @@ def _check_valid(axioms, pc, goal, timeout_ms=10000, seed=0, external=True):
             f.write('; goal: %s\n' % str(goal).replace('\n', ' ')[:300])
             f.write(sd.to_smt2())
     st, reason, model, _ = attempts[0]
+    if ext_budget and st != 'sat':
+        reason = (reason or '') + ' external solver timeout'
     return Result('sat' if st == 'sat' else 'unknown', 'z3-5.1.0', dt, model=model, reason=reason)
 
 
